@@ -712,7 +712,10 @@ class Gen:
                 elif ret == LIST(NUM):
                     step = ("call", rng.choice(["cons", "cons_end"]), [("var", params[0][0]), rec_call])
                 elif ret == STR:
-                    step = ("str", [("ip", ("var", params[0][0])), ("lit", ","), ("ip", rec_call)])
+                    if contains_kind(rec_call, ("str", "mk")):
+                        step = ("call", "str_append", [("str", [("ip", ("var", params[0][0])), ("lit", ",")]), rec_call])
+                    else:
+                        step = ("str", [("ip", ("var", params[0][0])), ("lit", ","), ("ip", rec_call)])
                 elif ret == BOOL:
                     step = ("not", rec_call)
                 else:
